@@ -23,9 +23,23 @@ def execute(w, op, by_name, res, tape, fp):
         by_name["C15RunLog"].check()
     elif k == "stop_check":
         # C13: after any history the engine stays responsive to Stop
+        # a Stop that arrives while the engine is Restarting is legitimately refused: the user retries
+        # (and a Stop that executes in the very tick in which a method-issued Restart begins is dropped)
+        accepted = 0
+        for attempt in range(8):
+            if w.state == "Stopped" and not w.control()[0]:
+                break
+            if w.user_command("Stop"):
+                accepted += 1
+                for _ in range(4):
+                    w.tick(0.1)
+                    if w.state == "Stopped":
+                        break
+            else:
+                w.tick(0.1)
         if w.state != "Stopped":
             res.add("C13", "C13.stop_not_honoured", w.state, w.tick_no,
-                    f"user Stop followed by 4 ticks left the engine in state {w.state}")
+                    f"user Stop (accepted={accepted}) followed by 4 ticks left the engine in state {w.state}")
         else:
             res.probe("stop_honoured")
     else:
@@ -69,7 +83,7 @@ def _edit(w, op, by_name, res, fp):
             new_lines = lines[:last + 1] + [[nid(), ind + ln] for ln in payload] + lines[last + 1:]
     elif kind in ("change_future", "delete_future"):
         cands = [n for n in nodes if n.id not in touched and n.token is not None and not n.children
-                 and not any(a.id in executed for a in n.ancestors() if a.kind == "Macro")]
+                 and not any(a.kind == "Macro" for a in n.ancestors())]
         if not cands:
             fp.append("edit-none")
             return
